@@ -33,8 +33,10 @@ From Tangelo Require Import Chem.Decomp.
 From Tangelo Require Import Chem.DecompShow.
 Import ListNotations.
 Open Scope string_scope.
+From Gen Require Import DecompFacts.
 Definition lk (s l : Z) (f : Qc) (sp : string) : link QcRing := mkLink (R := QcRing) s l f sp.
 """
+FACTS = {}      # facts regenerated from the source in this run (translator/decomp_facts.py), or the fallback
 
 SIG_ALIAS = "C15/distribute_atoms/link-on-whole-system-fragment-extends-shared-geometry"
 SIG_DMET_INCOMPLETE = "C15/DMET.__init__/nested-fragment_atoms-not-covering-molecule-accepted"
@@ -150,7 +152,7 @@ def err_str(e):
     name = type(e).__name__
     if isinstance(e, RuntimeError):
         msg = str(e)
-        for tag in ("solver_high", "higher", "once", "sites", "frozen", "solvers does not", "options"):
+        for tag in ("solver_high", "higher", "negative", "once", "sites", "frozen", "solvers does not", "options"):
             if tag in msg:
                 return "Err:RuntimeError:" + tag
         return "Err:external:RuntimeError"
@@ -250,7 +252,7 @@ def oniom_coq_expr(case, asis):
         links = coq_list(["(lk %s %s %s %s)" % (coq_Z(l[0]), coq_Z(l[1]), coq_q(Fraction(l[2][0], l[2][1])), coq_str(l[3]))
                           for l in f["links"]])
         specs.append("(%s, %s, %s, %s)" % (sel_coq(f["sel"]), lvl_coq(f["low"]), lvl_coq(f["high"]), links))
-    return "run_oniom %s %s %s %s" % (coq_bool(asis), coq_bool(case["sym"]), coq_geom(case["geom"]), coq_list(specs))
+    return "run_oniom_src oniom_copies %s %s %s" % (coq_bool(case["sym"]), coq_geom(case["geom"]), coq_list(specs))
 
 
 def gen_geom(rng, n):
@@ -392,9 +394,9 @@ ALIAS_WITNESS = {"geom": [["H", [0, 0, 0]], ["H", [0, 0, 4]], ["H", [0, 0, 8]]],
 def stream_oniom(ck):
     quick = ck.tier == "quick"
     out_w, info_w = run_oniom_impl(ALIAS_WITNESS)
-    asis = bool(info_w.get("geometry_changed"))
-    ck.notes["oniom_variant"] = "asis (witness of C15_distribute_atoms_aliasing_refuted still fails on /repo)" if asis \
-        else "repaired (witness passes on /repo: correspondence against distribute_repaired)"
+    asis = not FACTS["oniom_copies"]
+    ck.notes["oniom_variant"] = "distribute_src oniom_copies with oniom_copies = %s regenerated from the source; the witness of " \
+        "C15_distribute_atoms_aliasing_refuted %s on this tree" % (FACTS["oniom_copies"], "still fails" if info_w.get("geometry_changed") else "passes")
     cases = [ALIAS_WITNESS]
     for mode, n in (("mixed", 140 if quick else 2400), ("telescope", 50 if quick else 900), ("whole", 40 if quick else 700)):
         cases += [gen_oniom(ck.rng, mode) for _ in range(n)]
@@ -420,7 +422,7 @@ def stream_oniom(ck):
     for c, (a, _), b in zip(cases, impl, model):
         if a != b:
             ck.violation("C15/correspondence/oniom/%s" % ("error" if a.startswith("Err") or b.startswith("Err") else "value"),
-                         "model (%s) and implementation differ: impl=%s model=%s" % ("asis" if asis else "repaired", a[:500], b[:500]),
+                         "model (oniom_copies=%s) and implementation differ: impl=%s model=%s" % (not asis, a[:500], b[:500]),
                          {"kind": "oniom", "case": c, "impl": a, "model": b}, found_input=False)
 
 
@@ -704,7 +706,7 @@ def dmet_coq_expr(case, asis):
     sv = "SolversStr" if not isinstance(case["solvers"], list) else "(SolversList %s)" % coq_nat(len(case["solvers"]))
     o = case["options"]
     op = "OptionsEmpty" if not o else ("OptionsDict" if isinstance(o, dict) else "(OptionsList %s)" % coq_nat(len(o)))
-    return "run_dmet %s %s %s %s %s %s" % (coq_bool(asis), coq_nat(case["natm"]), t, coq_nat(case["frozen"]), sv, op)
+    return "run_dmet_src dmet_checks %s %s %s %s %s" % (coq_nat(case["natm"]), t, coq_nat(case["frozen"]), sv, op)
 
 
 def gen_dmet(rng, nested):
@@ -842,9 +844,9 @@ def dmet_oracle(case, out, obs):
 def stream_dmet(ck):
     quick = ck.tier == "quick"
     out_w, obs_w = run_dmet_impl(DMET_WITNESS)
-    asis = obs_w is not None or out_w.startswith("Err:external")
-    ck.notes["dmet_variant"] = "asis (witness of C15_dmet_reorder_asis_refuted is still accepted by /repo)" if asis \
-        else "repaired (witness rejected by /repo: correspondence against dmet_book_repaired)"
+    asis = "source chain %s" % FACTS["dmet_checks"]
+    ck.notes["dmet_variant"] = "dmet_book_src dmet_checks with dmet_checks = %s regenerated from the source; the witness of " \
+        "C15_dmet_reorder_asis_refuted is %s by this tree" % (FACTS["dmet_checks"], "still accepted" if (obs_w is not None or out_w.startswith("Err:external")) else "rejected")
     cases = [DMET_WITNESS] + dmet_cycle_cases() + [gen_dmet(ck.rng, True) for _ in range(30 if quick else 300)] \
         + [gen_dmet(ck.rng, False) for _ in range(60 if quick else 600)]
     ck.stream("dmet-bookkeeping", "DMETProblemDecomposition.__init__ on H4/H6 (sto-3g): fragment_atoms as counts or nested index "
@@ -866,12 +868,12 @@ def stream_dmet(ck):
     for c, a, b in zip(cases, impl, model):
         if a == b:
             continue
-        if a.startswith("Err:external") and b not in ("Err:RuntimeError:higher", "Err:RuntimeError:once", "Err:ValueError", "Err:IndexError"):
+        if a.startswith("Err:external") and b not in ("Err:RuntimeError:higher", "Err:RuntimeError:negative", "Err:RuntimeError:once", "Err:RuntimeError:sites", "Err:ValueError", "Err:IndexError"):
             # past Tangelo's index checks (as the model says), then PySCF refused the rebuilt molecule before the
             # remaining length checks were reached: judged by the oracle
             continue
         ck.violation("C15/correspondence/dmet-bookkeeping", "model (%s) and implementation differ on %s: impl=%s model=%s"
-                     % ("asis" if asis else "repaired", c["fa"], a, b), {"kind": "dmet", "case": c, "impl": a, "model": b}, found_input=False)
+                     % (asis, c["fa"], a, b), {"kind": "dmet", "case": c, "impl": a, "model": b}, found_input=False)
 
 
 # ------------------------------------------------------------------------------------------ support runs (not proof)
@@ -1167,7 +1169,7 @@ def support_oniom(ck):
 
 # ------------------------------------------------------------------------------------------ main
 def run(ck):
-    ck.trusted = ["Coq 8.16.1 kernel (coqc), vm_compute",
+    ck.trusted = ["Coq 8.16.1 kernel (coqc), vm_compute", "translator/decomp_facts.py (ast pattern match, fail closed)",
                   "models of oniom_problem_decomposition.py / helper_classes.py / incremental_helper.py / dmet constructor in "
                   "coq/theories/Chem/Decomp.v (hand-written, tied by the correspondence streams of this run)",
                   "harness/props/C15.py (generators, stub molecule/solver classes, canonical printers), coq/theories/Chem/DecompShow.v (printers)",
@@ -1179,9 +1181,25 @@ def run(ck):
                       "py_tuple_str = str(tuple) is proved injective and C15_mi_full_order_is_total_python_keys has no hypothesis left",
                       "DMET numerics (localisation, bath, root search, RDM energies) are outside the theorems: support runs only",
                       "float arithmetic: correspondence inputs are integers / dyadic rationals so that binary64 is exact"]
+    # 1. regenerate the source facts (fail closed; the fallback keeps the implementation-only oracles running)
+    from translator import decomp_facts
+    from translator.common import TranslateError
+    from harness.lib import REPO, COQ
+    try:
+        FACTS.update(decomp_facts.extract(REPO))
+        ck.notes["source_facts"] = dict(FACTS)
+    except TranslateError as e:
+        ck.violation("C15/translator/decomp_facts", "translator no longer recognises the source: %s" % e,
+                     {"kind": "translator", "error": str(e)}, found_input=False)
+        FACTS.update(decomp_facts.FALLBACK)
+        ck.notes["source_facts"] = {"fallback": dict(FACTS)}
+        ck.assumptions.append("Gen.DecompFacts was NOT regenerated in this run (translator failure); fallback facts used")
+    ck.write_gen("DecompFacts", decomp_facts.emit(FACTS))
+    # 2. proofs: the source-independent theorems, then the statements over the regenerated facts
     res = ck.prove()
     if not res.ok:
         ck.proof_violation(res)
+    res_src = ck.prove(props_file=COQ / "props" / "C15_source.v")
     try:
         import tangelo.problem_decomposition  # noqa
     except Exception as e:       # noqa
@@ -1199,13 +1217,27 @@ def run(ck):
             tb = traceback.format_exc()
             ck.violation("C15/harness-crash/%s" % stream.__name__, "stream %s could not complete: %s" % (stream.__name__, tb.splitlines()[-1]),
                          {"kind": "crash", "stream": stream.__name__, "traceback": tb}, found_input=False)
+    if not res_src.ok:
+        # the full statement over the regenerated facts no longer type-checks (a check is missing from the source's chain /
+        # the geometry is aliased).  When the implementation-only oracles found the concrete failing inputs of exactly
+        # that class, those VIOLATION lines are the report; otherwise the broken obligation is reported by itself.
+        explained = {"C15_source_dmet_reorder_is_permutation": (SIG_DMET_INCOMPLETE, SIG_DMET_NEGDUP, SIG_DMET_WRONG_ATOMS),
+                     "C15_source_oniom_telescopes": (SIG_ALIAS,), "C15_source_distribute_atoms_unchanged": (SIG_ALIAS,)}
+        found = {v["signature"] for v in ck.violations if v["found_input"]}
+        if res_src.failed in explained and found & set(explained[res_src.failed]):
+            ck.notes["source_obligation_broken"] = {"theorem": res_src.failed, "explained_by": sorted(found & set(explained[res_src.failed])),
+                                                    "source_facts": dict(FACTS)}
+        else:
+            ck.proof_violation(res_src, "(statement over the facts regenerated from the source: %s)" % FACTS)
     ck.notes["theorem_status"] = {
         "full": ["C15_oniom_telescopes_sum", "C15_oniom_telescopes", "C15_oniom_model_is_system", "C15_oniom_model_is_system_index_list",
                  "C15_distribute_atoms_repaired_unchanged", "C15_link_on_bond", "C15_link_collinear_scaled",
                  "C15_mi_full_order_is_total (all n, by induction)", "C15_mi_full_order_is_total_python_keys", "C15_py_tuple_str_injective", "C15_mi_top_is_total_any_order", "C15_mi_epsilon_defined_before_use",
-                 "C15_mi_full_table_closed", "C15_dmet_reorder_is_permutation (repaired checks)", "C15_dmet_cost_zero_iff_electron_sum"],
+                 "C15_mi_full_table_closed", "C15_dmet_reorder_is_permutation (repaired checks)", "C15_dmet_cost_zero_iff_electron_sum",
+                 "C15_source_dmet_reorder_is_permutation (check chain regenerated from the source)",
+                 "C15_source_oniom_telescopes, C15_source_distribute_atoms_unchanged (copy fact regenerated from the source)"],
         "partial": ["C15_oniom_telescopes_asis_partial", "C15_distribute_asis_eq_repaired_partial", "C15_dmet_reorder_asis_partial"],
-        "refuted": ["C15_distribute_atoms_aliasing_refuted", "C15_dmet_reorder_asis_refuted"]}
+        "refuted (as-is variants of the original source, kept as witnesses)": ["C15_distribute_atoms_aliasing_refuted", "C15_dmet_reorder_asis_refuted"]}
     ck.notes["clauses_not_covered_by_a_theorem"] = [
         "DMET energy equals the exact solver's energy when fragment+bath span the space; electron numbers sum to N at the end of "
         "simulate(); invariance under atom relabelling (numerical: support-dmet stream only)",
